@@ -47,6 +47,17 @@ CLAIMS.update({
         "with > 4 records, > 2 axes. The MIR translator's std whitelist (Ord::max/min/clamp, PartialOrd on derived newtypes, wrapping ops, i64::from) "
         "is hand-written and validated per run against native execution on ~180 inputs.",
         "DESIGN.md section 6, C13", TECH_SMT + "; " + TECH_KANI),
+    "C01": (
+        "Bounded solver verdict (totality: no panic, no failed unwrap, no overflow in the dev profile, no out-of-bounds access, loops bounded by "
+        "the buffer) for ARBITRARY bytes, truncated anywhere, handed to: sfnt/TTC reader + provider + table_data (48 B), WOFF header/directory + "
+        "uncompressed table_data (88 B), WOFF2 header and directory entry, head/hhea/maxp, hmtx with any counts + metric lookups, name, cmap "
+        "header + any subtable at any offset + map_glyph (44 B: formats 4/6/10/12), kern format 2 with hostile offsets, fvar header; fvar/avar "
+        "normalisation with hostile axis values; Coverage/ClassDef/Anchor with counts 0/1/2; CFF INDEX with hostile offsets; WOFF2 transformed "
+        "glyf header with 65535 glyphs and any bbox size; WOFF2 transformed hmtx over an untransformed glyf.",
+        "Count fields that size a Vec are concrete per harness (family listed in evidence), so a panic that needs another count is not found. Outside: "
+        "buffers longer than stated, zlib/brotli, CFF/CFF2 DICTs and charstrings, SimpleGlyph::read_dep, post names, cmap format 2, subset/instance pipelines, "
+        "Font::new. One open known finding (Fixed::neg overflow on fvar spans >= 32768.0).",
+        "DESIGN.md section 6, C01", TECH_KANI),
     "C04": (
         "Bounded solver verdict for the matching primitives that do not pass through the layout cache - NOT for lookup application: Coverage "
         "formats 1/2 and ClassDef formats 1/2 parsed from symbolic bytes return the specified index/class for every u16 glyph; "
